@@ -3,6 +3,7 @@ package core
 import (
 	"math/rand"
 	"sort"
+	"strconv"
 )
 
 // Env is the data environment of one expression case.
@@ -37,7 +38,30 @@ type path struct {
 var strPool = []string{"", "a", "1", "<b>", "x&y", "é", "a'b", "q\"t", "two words", "日本", "back\\slash", "nl\nx", "tab\tx", "}", "{", "//c", "/*c*/", "0", "-1", "true"}
 var keyPool = []string{"k", "a", "b", "zed", "Key_1"}
 
-func typeOf(v V) string { return v["t"].(string) }
+func typeOf(v V) string {
+	if v["t"] == "bigint" {
+		return "big"
+	}
+	return v["t"].(string)
+}
+
+// bigDigits returns the decimal digits of an integer between 2^31 and 2^53.
+func bigDigits(r *rand.Rand) string {
+	n := int64(1)<<31 + r.Int63n(int64(1)<<53-int64(1)<<31)
+	switch r.Intn(6) {
+	case 0:
+		n = 1<<53 - 1
+	case 1:
+		n = 1 << 53
+	case 2:
+		n = 1 << 31
+	}
+	s := strconv.FormatInt(n, 10)
+	if r.Intn(3) == 0 {
+		s = "-" + s
+	}
+	return s
+}
 
 // RandValue produces a random Soy value of nesting depth <= d.
 func RandValue(r *rand.Rand, d int) V {
@@ -53,6 +77,9 @@ func RandValue(r *rand.Rand, d int) V {
 	case 2, 3:
 		return VInt(r.Intn(25) - 5)
 	case 4:
+		if r.Intn(3) == 0 {
+			return VBigInt(bigDigits(r))
+		}
 		return VInt(r.Intn(60001) - 30000)
 	case 5:
 		return VFloat(r.Intn(4), 0)
@@ -263,6 +290,9 @@ func (g *ExprGen) Gen(want string, depth int) E {
 		case 1, 2:
 			return EBin([]string{"lt", "gt", "le", "ge"}[g.pick(4)], g.Gen("num", depth-1), g.Gen("num", depth-1))
 		case 3:
+			if g.pick(6) == 0 {
+				return EBin([]string{"eq", "ne"}[g.pick(2)], g.bigLeaf(), g.bigLeaf())
+			}
 			t := []string{"num", "str", "bool", "int"}[g.pick(4)]
 			return EBin([]string{"eq", "ne"}[g.pick(2)], g.Gen(t, depth-1), g.Gen(t, depth-1))
 		case 4:
@@ -345,6 +375,18 @@ func (g *ExprGen) Gen(want string, depth int) E {
 
 func (g *ExprGen) leafSmallInt() E { return EInt(g.pick(7) - 1) }
 
+// bigLeaf is an integer beyond 32 bits: a literal, its negation or a path.
+func (g *ExprGen) bigLeaf() E {
+	if p := g.pathOf("big"); p != nil && g.pick(2) == 0 {
+		return p
+	}
+	d := []string{"9007199254740991", "2147483648", "4294967296", "9007199254740992", "1099511627776"}[g.pick(5)]
+	if g.pick(3) == 0 {
+		return ENeg(EBigInt(d))
+	}
+	return EBigInt(d)
+}
+
 func (g *ExprGen) leaf(want string) E {
 	usePath := g.pick(2) == 0
 	switch want {
@@ -399,6 +441,9 @@ func (g *ExprGen) leaf(want string) E {
 		return EVar("undefinedVar")
 	}
 	// any: a path of any type, null, or a missing reference
+	if g.pick(12) == 0 {
+		return g.bigLeaf()
+	}
 	switch g.pick(8) {
 	case 0:
 		return ENull()
